@@ -43,6 +43,18 @@ func (s *Stage) UpdateStatus(status int32) {
 	atomic.StoreInt32(&s.Status, status)
 }
 
+// start moves a waiting stage to Running and reports whether it did. A graph can be scheduled by
+// several loops at the same time (a pipeline that two stages include): only the loop that wins
+// this transition starts the stage.
+func (s *Stage) start() bool {
+	if !atomic.CompareAndSwapInt32(&s.Status, StatusWaiting, StatusRunning) {
+		return false
+	}
+	verifStatus(s, StatusRunning)
+
+	return true
+}
+
 // ReadStatus is a helper to read stage's status atomically
 func (s *Stage) ReadStatus() int32 {
 	return atomic.LoadInt32(&s.Status)
